@@ -5,7 +5,7 @@
    index, unwrap); error 99 (L_FUEL / E_FUEL) is "the model's fuel ran out",
    i.e. an unbounded loop. *)
 From Erbium Require Import Lib.Base Model.DhcpCodec Model.DhcpOptVal Model.Lldp
-  Proofs.Total Proofs.DhcpOptVal Proofs.Lldp.
+  Proofs.Total Proofs.DhcpOptVal Proofs.Lldp Proofs.Folds.
 
 (* ---- LLDP ---------------------------------------------------------------- *)
 (* whatever octets arrive on the raw socket, handling the frame (Ethernet-header
@@ -122,3 +122,13 @@ Proof. exact int_folds_total. Qed.
 Check C05_int_folds_total : forall (v : list N) (k : panic_kind), bytes_ok v = true ->
   parse_u16 v <> Panic k /\ parse_u32 v <> Panic k /\ parse_u64 v <> Panic k /\ parse_i32 v <> Panic k.
 Print Assumptions C05_int_folds_total.
+
+(* ... and what they compute is the value of the low-order octets *)
+Theorem C05_int_fold_values : forall v : list N, bytes_ok v = true ->
+  parse_u16 v = Ok (be_decode v mod 2 ^ 16) /\ parse_u32 v = Ok (be_decode v mod 2 ^ 32) /\
+  parse_u64 v = Ok (be_decode v mod 2 ^ 64) /\ parse_i32 v = Ok (be_decode v mod 2 ^ 32).
+Proof. exact int_fold_values. Qed.
+Check C05_int_fold_values : forall v : list N, bytes_ok v = true ->
+  parse_u16 v = Ok (be_decode v mod 2 ^ 16) /\ parse_u32 v = Ok (be_decode v mod 2 ^ 32) /\
+  parse_u64 v = Ok (be_decode v mod 2 ^ 64) /\ parse_i32 v = Ok (be_decode v mod 2 ^ 32).
+Print Assumptions C05_int_fold_values.
